@@ -172,6 +172,13 @@ func (g *pgen) corpusC03(start int) []*ConvSpec {
 	add([]Field{{"A", tPtr(i)}}, []Field{{"A", i}}, []string{"ignoreMissing"}, nil)
 	add([]Field{{"A", tSlice(i)}}, []Field{{"A", tSlice(i64)}}, []string{"ignoreMissing", "matchIgnoreCase"}, nil)
 	add([]Field{{"A", tMap(str, i)}}, []Field{{"A", tSlice(i)}}, nil, []string{"ignoreMissing"})
+	// an unexported target field that is not accessible from the output package stays inaccessible when it is mapped
+	// explicitly (with or without ignoreUnexported)
+	add([]Field{{"X", i}, {"Z", i}}, []Field{{"y", i}, {"Z", i}}, nil, []string{"map X y"})
+	out[len(out)-1].Methods[0].Fields["y"] = &fieldSet{Source: "X"}
+	add([]Field{{"X", i}, {"Z", i}}, []Field{{"y", i}, {"Z", i}}, []string{"ignoreUnexported"}, []string{"map X y"})
+	out[len(out)-1].Methods[0].Fields["y"] = &fieldSet{Source: "X"}
+	add([]Field{{"X", i}, {"Z", i}}, []Field{{"y", i}, {"Z", i}}, nil, nil) // unmapped: refused as well
 	return out
 }
 
